@@ -513,3 +513,23 @@ func MentionsConst(info *types.Info, n ast.Node, name string) bool {
 	})
 	return found
 }
+
+// IncDecOf recognises a unit step of a variable in either spelling: `x++`,
+// `x--`, `x += 1`, `x -= 1` (the loader rewrites the first two into the last
+// two, test files and fixtures may still carry them). tok is token.INC or token.DEC.
+func IncDecOf(info *types.Info, s ast.Stmt) (x ast.Expr, tok token.Token, ok bool) {
+	switch st := s.(type) {
+	case *ast.IncDecStmt:
+		return st.X, st.Tok, true
+	case *ast.AssignStmt:
+		if len(st.Lhs) == 1 && len(st.Rhs) == 1 && (st.Tok == token.ADD_ASSIGN || st.Tok == token.SUB_ASSIGN) {
+			if v, isC := ConstInt(info, st.Rhs[0]); isC && v == 1 {
+				if st.Tok == token.ADD_ASSIGN {
+					return st.Lhs[0], token.INC, true
+				}
+				return st.Lhs[0], token.DEC, true
+			}
+		}
+	}
+	return nil, token.ILLEGAL, false
+}
